@@ -8,6 +8,7 @@
 //!   execute(&Value) -> String                    runs the implementation, returns a Gallina case
 //! With `--inputs FILE` (JSON lines) the generator is skipped: replay / corpus.
 mod c15;
+mod c19;
 mod dump;
 mod gal;
 mod gen;
@@ -33,6 +34,7 @@ pub struct PropModule {
 fn module(prop: &str) -> PropModule {
     match prop {
         "C15" => c15::module(),
+        "C19" => c19::module(),
         "C01" => PropModule { coq_module: "Check_Norm", runner: "Check_Norm.run_C01", generate: |r, t| libgen::generate_mixed(r, t, 320), execute: lib_stage::execute, label: libgen::label },
         "C02" => PropModule { coq_module: "Check_Norm", runner: "Check_Norm.run_C02", generate: |r, t| libgen::generate_mixed(r, t, 320), execute: lib_stage::execute, label: libgen::label },
         "C06" => PropModule { coq_module: "Check_Norm", runner: "Check_Norm.run_C06", generate: |r, t| libgen::generate_mixed(r, t, 320), execute: lib_stage::execute, label: libgen::label },
